@@ -1756,8 +1756,12 @@ def replay(run, path):
         line = "mpath %s %s %s %s" % (r["mode"], hx(r["doc"]), hx(r["path"]), hx(r["val"]) if r.get("val") is not None else "-")
     elif r.get("kind") == "regs":
         line = "regs %s %s" % (hx(r["doc"]), hx(r["steps"]))
+    elif r.get("kind") == "msub":
+        line = "msub %s %s %s" % (hx(r["doc"]), hx(r["path"]), hx(r["patch"]))
+    elif r.get("kind") == "mdeep":
+        line = "mdeep %d" % r["depth"]
     elif r.get("kind") == "reg":
-        line = "reg %s %s %s %s" % (r["mode"][1], hx(r["doc"]), hx(r["path"]), hx(r["val"]) if r.get("val") is not None else "-")
+        line = "reg %s %s %s %s" % (r["mode"][1:], hx(r["doc"]), hx(r["path"]), hx(r["val"]) if r.get("val") is not None else "-")
     else:
         line = "merge %s %s %s" % (r["mode"], hx(r["doc"]), hx(r["patch"]))
     env = dict(os.environ, ASAN_OPTIONS="detect_leaks=1", LSAN_OPTIONS="exitcode=0", H_JPATCH_PAR="1" if " par=bad" in r.get("impl", "") else "")
